@@ -203,7 +203,7 @@ info('C10',
      [])
 info('C12',
      'P: fermionic sign algebra of order_combine_term (bubble sort by site with sign bookkeeping, any length; shared with C10); '
-     'MultiCouplingTerms.multi_coupling_term_handle_JW, real source, any number of factors on any sites, any unit cell length: a JW string right of factor x, and a JW multiplied onto factor x from the right, iff the number of JW-needing factors among 0..x is odd; ValueError iff the total is odd; all sites move by one common shift; CouplingTerms.coupling_term_handle_JW (two factors): string and JW factor iff both need one, ValueError iff exactly one does (contracts/c_terms_jw.py). '
+     'MultiCouplingTerms.multi_coupling_term_handle_JW, real source, any number of factors on any sites, any unit cell length: a JW string right of factor x, and a JW multiplied onto factor x from the right, iff the number of JW-needing factors among 0..x is odd; ValueError iff the total is odd; all sites move by one common shift; CouplingTerms.coupling_term_handle_JW (two factors): string and JW factor iff both need one, ValueError iff exactly one does (contracts/c_terms_jw.py); Site.rename_op keeps matrix and JW flag of the renamed operator and touches no other name (contracts/c_site.py). '
      'B (bounded; the site part is a complete enumeration of the stated finite domain): every predefined site class over S <= 3, '
      'Nmax <= 4, q <= 5, fillings and every conserve option: operators equal up to perm across options, spin / fermion / boson / clock '
      'algebra, declared h.c. pairs, operator charges consistent with the connected states, product names; grouped sites of 2-3 '
